@@ -86,6 +86,21 @@ def K9_duplicate_field_names_misparse():
     p = NestedDtype.construct_from_string(d.name)
     return p != d, f"{d.name} -> {p.name}"
 
+@case
+def K10_nested_column_called_base():
+    nf = NestedFrame({"a": [1, 2]}, index=[0, 1]).add_nested(pd.DataFrame({"t": [1.0, 2.0, 3.0]}, index=[0, 0, 1]), "base")
+    out = {}
+    for nm, fn in (("reduce", lambda: nf.reduce(lambda t: {"n": len(t)}, "base.t")),
+                   ("sort_values", lambda: nf.sort_values("base.t")),
+                   ("dropna", lambda: nf.dropna(subset="base.t"))):
+        try:
+            fn()
+            out[nm] = "ok"
+        except KeyError as e:
+            out[nm] = "KeyError"
+    out["all_columns"] = sorted(nf.all_columns)
+    return out["reduce"] == "KeyError" or out["sort_values"] == "KeyError" or out["all_columns"] == ["base"], out
+
 if __name__ == "__main__":
     for k, (violated, d) in R.items():
         print(("STILL-VIOLATED " if violated else "NOT-REPRODUCED "), k, "--", d)
